@@ -91,6 +91,13 @@ fn check_text(t: &TextCase, obs: &mut Obs) -> Verdict {
         Err(p) => return Verdict::Fail(format!("locate_sourcemap_reference_slice: {p}")),
     };
     ensure_eq!(got, want, "locate_sourcemap_reference_slice on {text:?} ((legacy, url))");
+    // the same discovery through a SourceView of the file
+    let via_view = match guard(|| sourcemap::SourceView::new(text.as_str().into()).sourcemap_reference()) {
+        Ok(Ok(r)) => as_pair(&r),
+        Ok(Err(e)) => return Verdict::Fail(format!("SourceView::sourcemap_reference failed on valid UTF-8 text: {e}")),
+        Err(p) => return Verdict::Fail(format!("SourceView::sourcemap_reference: {p}")),
+    };
+    ensure_eq!(via_view, want, "SourceView::sourcemap_reference on {text:?} ((legacy, url))");
     let n = text.len();
     let mut cuts: Vec<usize> = t.cuts.iter().map(|c| idx16(*c, n + 1)).filter(|c| *c > 0 && *c < n).collect();
     cuts.sort();
